@@ -10,8 +10,8 @@ CONSTANTS
   MaxCycles = 2
   ACs = {TRUE, FALSE}
   Concs = {TRUE, FALSE}
-  ACLs = {FALSE}
-  CleanUps = FALSE
+  ACLs = {TRUE}
+  CleanUps = TRUE
   AltKeys = TRUE
   CanonPull = TRUE
 INVARIANTS EmitBehaviours
